@@ -259,8 +259,9 @@ def _worker(args):
         rundir = os.path.join(wd, 'c17-%d-%d' % (os.getpid(), i))
         import shutil
         retried = False
+        inv = r.choice(drv.INVOKE)
         for attempt in (0, 1):
-            o = drv.run(drvb, rundir, cl, files)
+            o = drv.run(drvb, rundir, cl, files, invoke=inv)
             # outputs that overwrite an input file (e.g. -o a.c): read back
             o.overwritten = {}
             o.destroyed = []
